@@ -212,3 +212,14 @@ class watchdog:
         signal.alarm(0)
         signal.signal(signal.SIGALRM, self.old)
         return False
+
+
+NUMPY_METRIC_TYPES = ("float64", "float32", "int64", "int32")
+
+
+def cast_metric(value, dtype):
+    """the metric value as the training code may report it: Python float, or a numpy scalar (numpy.float64 is a float
+    subclass, numpy.float32 / int64 / int32 are not)"""
+    if dtype in (None, "py"):
+        return value
+    return getattr(np, dtype)(value)
